@@ -107,7 +107,11 @@ def gen(seed, tier):
                     parity ^= r.randint(0, 1)
                 else:
                     tc = r.randint(9, 18)
-                    segs.append(seg(t, [g.f_df17(icao, g.me_airpos(la, lo, parity, tc, r.randint(40, 2000)))]))
+                    me = g.me_airpos(la, lo, parity, tc, r.randint(40, 2000))
+                    if r.random() < 0.2:
+                        # the altitude field says "no altitude" (all zero, below 0 ft) or is a Gillham code: the CPR half counts all the same
+                        me = (me & ~(0xFFF << 36)) | (r.choice([0, 0x010, 0x030, 0x008, 0x1A2 & ~0x10]) << 36)
+                    segs.append(seg(t, [g.f_df17(icao, me)]))
                     truth.append(("air", parity, round(la, 7), round(lo, 7)))
                     parity ^= 1 if r.random() < 0.85 else 0
                 t += r.choice([0, 500, 1000, 5000, 9500, 10000, 10500, 15000, 60000])
